@@ -59,6 +59,14 @@ pub fn run(ctx: &Ctx) -> (Report, PropertyMeta) {
     if t == Tier::Thorough {
         crate::fuzzing::campaign(ctx, &mut report, "fq", 240);
     }
+    // real transports: a receive loop in the block_on body of a multi-thread runtime (the body
+    // of #[tokio::main]) fed by fast senders - where the cooperative-budget spin showed
+    {
+        use crate::stress::sc;
+        let n = t.pick(3000, 40_000);
+        let cases = vec![sc("pull", "block_on", 2, n, 20_000), sc("pull", "block_on", 1, n * 2, 9000), sc("router", "block_on", 2, n, 20_000), sc("rep", "block_on", 3, n / 3, 20_000), sc("pull", "spawned", 2, n, 20_000)];
+        crate::stress::run_all(ctx, &mut report, "C06", &cases, 45);
+    }
     let total = report.evaluations;
     health(&mut report, "wake-or-insert-inside-window", total, 50);
     health(&mut report, "two-busy-streams", total, 50);
@@ -80,6 +88,7 @@ pub fn run(ctx: &Ctx) -> (Report, PropertyMeta) {
 pub fn replay(_ctx: &Ctx, kind: &str, case: &Value) -> Vec<Failure> {
     match kind {
         "schedule06" | "schedule" => parse_case::<SchedCase>(case).map(|c| sched_outcome(&c, true).failures),
+        "stress" => Ok(crate::stress::replay(_ctx, "C06", case)),
         "schedule_subtree" => {
             let first: Result<SchedCase, _> = parse_case(&case["first"]);
             first.map(|c| {
